@@ -117,10 +117,7 @@ def check(ck):
             {(u, "F", "parse_and_validate_query") for u in ("T", "F")}
         ck.ob("Engine.cook: an unspecified decorator falls back to the engine's own; a callable decorator is applied to parse_and_validate_query, anything else means no cache",
               seen == want, c, c.node, construct="config:cook", detail=str(sorted(map(str, seen))))
-        mods = [m.relpath for m in repo.modules.values() for k, v in m.assigns.items() if isinstance(v, ast.Call) and "lru_cache" in unparse(v.func)]
-        deco = [f.short for f in repo.all_funcs() if any("lru_cache" in d or d in ("cache", "functools.cache") for d in f.decorators)]
-        ck.ob("no module-level cache or cached function in the package (all caching goes through the engine's decorator)", not mods and not deco, where="tartiflette/",
-              construct="config:no-other-cache", detail=str(mods + deco))
+        no_other_cache(ck, repo)
     with ck.rule("R5"):
         _r5(ck, repo, ph)
     with ck.rule("R4"):
@@ -179,3 +176,15 @@ def _chain(e):
         else:
             e = e.func
     return out
+
+
+def no_other_cache(ck, repo):
+    """No function of the package is memoised (functools caches as decorators or as module-level wrappers): such a cache is
+    process-wide state - shared by every request, every engine and every schema name (shared with C17.R3)."""
+    mods = [f"{m.relpath}::{k}" for m in repo.modules.values() for k, v in m.assigns.items() if isinstance(v, ast.Call) and ("lru_cache" in unparse(v.func) or unparse(v.func).endswith("cache"))]
+    deco = [f.short for f in repo.all_funcs() if any("lru_cache" in d or d in ("cache", "functools.cache") or d.endswith(".cache") for d in f.decorators)]
+    ck.ob("no module-level cache or cached function in the package (all caching goes through the engine's decorator)", not mods and not deco, where="tartiflette/",
+          construct="config:no-other-cache", detail=str(mods + deco))
+    for name in deco:
+        ck.ob(f"{name} is not memoised", False, where=name, construct=f"global:memoised:{name.split('::')[-1]}", detail="a functools cache keeps what it returned for the life of the process: callers that extend or "
+              "rebind parts of the cached object change what the next caller - another engine, another schema name - receives")
